@@ -33,7 +33,7 @@ REPS = ["bin8", "bin4", "txt"]
 
 @st.composite
 def geom3(draw, nmax=4):
-    g = draw(gen.geom(ndim=3, nmax=nmax, exps=(-9, 3), big_offsets=False, maxcells=60, names=False))
+    g = draw(gen.geom(ndim=3, nmax=nmax, exps=(-9, 3), big_offsets=False, maxcells=60, names=False, aniso=True))
     u = draw(st.sampled_from([None, "m", "nm", "um"]))
     g["units"] = [u] * 3 if u else None
     g["tol"] = None
@@ -43,7 +43,7 @@ def geom3(draw, nmax=4):
 @st.composite
 def field_case(draw, small=False):
     g = draw(geom3(nmax=3 if small else 4))
-    if g["exp"] > 0:
+    if g["exp"] > 0 or g.get("stretched"):
         subs = []
     else:
         subs = draw(gen.index_boxes(g["n"], 2))
